@@ -36,6 +36,8 @@ def collect(chk, outs, variant, label):
         st["requests"] += res["requests"]
         for k, v in res["ops"].items():
             st["ops"][k] = st["ops"].get(k, 0) + v
+        for x in res.get("samples", [])[:2]:
+            chk.sample(x, limit=6)
         for c in res["cfgs"]:
             chk.distinct.add("cfg:" + c)
         for g in res["geom"]:
@@ -131,7 +133,6 @@ def main():
                        "pool interference is exercised by interleaving sessions and threads, not exhausted"]
     rig_p(chk, a.tier, a.seed)
     rig_r(chk, a.tier, a.seed)
-    chk.sample({"call": "get_many(['1.3.6.1.4.1.5.0', ...17 oids])", "judged": "datagram 30 82 .. strict-decoded, tag a0, oids in order, NULL values"})
     sys.exit(chk.finish())
 
 
